@@ -11,7 +11,8 @@ abbrev cfg : Cfg :=
   { requeue := Gen.Thread.requeueOnNoReader, requeueHead := Gen.Thread.requeueAtHead,
     redispatch := Gen.Thread.redispatchToNext, checkSched := Gen.Thread.cbChecksSchedId }
 abbrev tcfg : TCfg := { completionAfterBody := Gen.Thread.completionAfterBody }
-abbrev rcfg : RCfg := { increfBeforeSend := Gen.Thread.increfBeforeSend }
+abbrev rcfg : RCfg :=
+  { increfBeforeSend := Gen.Thread.increfBeforeSend, recvKnownDecref := Gen.Thread.unmarshalKnownTestIsAbsent }
 
 /-- the callback must not deliver to a fiber that moved on -/
 theorem checks_sched_id : cfg.checkSched = true := by decide
@@ -32,6 +33,6 @@ theorem refcount_ge_reachers_current (acts : List RAct) :
     let s := rrun rcfg acts {}
     (s.freed = false → s.refcount = s.holds.length + s.transit) ∧ (s.freed = true → s.holds = [] ∧ s.transit = 0) ∧
       s.useAfterFree = false :=
-  refcount_ge_reachers rcfg (by decide) acts
+  refcount_ge_reachers rcfg (by decide) (by decide) acts
 
 end JanetModel.Thread.Current
